@@ -42,7 +42,7 @@ def store_version_is_literal(m, ex, raw, d):
     for ev in raw:
         if ev.kind == 'local-call' and ev.frame.body.id.startswith(d.id):
             cb = m.prog.bodies.get(ev.name)
-            if cb is not None and cb.kind == 'fn' and cb.argc == 5 and cb.locals[3] == 'i32' and cb.locals[1] == 'std::string::String':
+            if cb is not None and cb.kind == 'fn' and cb.argc == 5 and cb.locals[3] == 'i32' and core.is_str_ty(cb.locals[1]):
                 vals += [ex.describe(x) for x in ex.absvals(ev.frame, ev.term['args'][2])]
     return bool(vals) and all(x == 'const(-1)' for x in vals)
 
